@@ -16,6 +16,16 @@ pub async fn handle(
 ) -> Result<(), IggyError> {
     debug!("session: {session}, command: {command}");
     let system = system.read().await;
+    system.ensure_authenticated(session)?;
+    system
+        .permissioner
+        .get_stats(session.get_user_id())
+        .with_error_context(|error| {
+            format!(
+                "{COMPONENT} (error: {error}) - permission denied to get stats for user {}",
+                session.get_user_id()
+            )
+        })?;
     let stats = system.get_stats().await.with_error_context(|error| {
         format!("{COMPONENT} (error: {error}) - failed to get stats, session: {session}")
     })?;
